@@ -97,6 +97,16 @@ let () = reg "C06" "Hist" (fun ver args obs ->
              let upto = if c < 0 then (match vhi v with Some h -> h | None -> 0) else vlo v + c in
              ask (clip (upto + (if ver <> "v3" then 1 else 0)) v)
            end
+         | HRR (i, k, c1, c2) ->
+           let v = view (int_of_nat i) in
+           let k' = z2i k in
+           reads := true;
+           if k' = 2 then (match vhi v with Some h -> ask h | None -> ())
+           else begin
+             let c = max (z2i c1) (z2i c2) and neg = (z2i c1 < 0 || z2i c2 < 0) in
+             let upto = if neg then (match vhi v with Some h -> h | None -> 0) else vlo v + c in
+             ask (clip (upto + (if ver <> "v3" then 1 else 0)) v)
+           end
          | HSTR i | HND i -> reads := true; (match vhi (view (int_of_nat i)) with Some h -> ask h | None -> ())
          | _ -> ());
         let (st', ans) = step verz d !st op in
